@@ -307,6 +307,7 @@ func (c *Conn) readFramePayload(ctx context.Context, p []byte) (int, error) {
 
 	select {
 	case <-c.closed:
+		c.vEv("RdPayClosed", int64(n), 0, 0, 0)
 		return n, net.ErrClosed
 	case c.readTimeout <- context.Background():
 	}
